@@ -472,6 +472,8 @@ def _opt_rc_from(facts, b, e, selfv, name, env, reassigned, depth=0):
         cal = callee(e)
         if cal == "core::clone::Clone::clone":
             return _opt_rc_from(facts, b, e["args"][0], selfv, name, env, reassigned, depth + 1)
+        if cal in ("core::option::Option::<T>::filter", "core::option::Option::<T>::take_if", "core::option::Option::<T>::and", "core::option::Option::<T>::xor"):
+            return False, "`%s` drops the value for some handles (a clone would lose what the original has)" % cal.rsplit("::", 1)[-1]
         if cal in OPT_ADAPTORS:
             ok, why = _opt_rc_from(facts, b, e["args"][0], selfv, name, env, reassigned, depth + 1)
             if not ok:
@@ -968,6 +970,25 @@ def r16_ctor_funnel(facts):
                     for y in walk(facts.root(nb)):
                         if y.get("k") == "If" and _pn2(y["then"]) and sum(1 for z in walk(y["cond"]) if z.get("k") == "Field" and z.get("name") == "dimensions") >= 2:
                             other_form = True
+        if not ok and not other_form:
+            # the comparison may sit in a closure (`split_first().is_none_or(|(first, rest)| rest.iter().all(..))`) feeding a Boolean that is asserted
+            from .config_rules import _panics as _pn3
+            cmp_in_closure = False
+            for nb in facts.nested(nested):
+                for y in walk(facts.root(nb)):
+                    sides = None
+                    if y.get("k") == "Binary" and y.get("op") == "Eq":
+                        sides = [y["l"], y["r"]]
+                    elif y.get("k") == "Call" and callee(y) == "core::cmp::PartialEq::eq":
+                        sides = y["args"]
+                    if sides and all(any(z.get("k") == "Field" and z.get("name") == "dimensions" for z in walk(sd)) for sd in sides) \
+                            and show(peel(sides[0])) != show(peel(sides[1])):
+                        cmp_in_closure = True
+            has_refusal = any(y.get("k") == "If" and _pn3(y["then"]) for y in walk(facts.root(nested)))
+            if cmp_in_closure and has_refusal and not any(
+                    y.get("k") == "Call" and (callee(y) or "").rsplit("::", 1)[-1] in ("skip", "take", "step_by", "filter", "skip_while", "take_while", "nth")
+                    for nb in facts.nested(nested) for y in walk(facts.root(nb))):
+                other_form = True
         if not ok and other_form:
             c.unk("nested:assert-equal-shapes", "%s:%d" % (F.rel(nested["file"]), nested["sp"][0]),
                   "From<Vec<Array>> (or a helper it calls) refuses on a comparison of two arrays' dimensions in a form this rule does not read")
@@ -1179,7 +1200,10 @@ class EqEval:
     def compare(self, node, sides, negated, env):
         f = self.atom(node, env)
         lens = [peel(s_) for s_ in sides]
-        is_len = all(x.get("k") == "Call" and callee(x) in ("alloc::vec::Vec::<T, A>::len", "core::slice::<impl [T]>::len") for x in lens)
+        # a comparison of a PART of the field (its length, its first / last element, one index): implied by equality of the field, not equivalent to it
+        PARTS = ("alloc::vec::Vec::<T, A>::len", "core::slice::<impl [T]>::len", "core::slice::<impl [T]>::last", "core::slice::<impl [T]>::first",
+                 "core::slice::<impl [T]>::get", "core::ops::index::Index::index", "core::slice::<impl [T]>::is_empty")
+        is_len = all(x.get("k") == "Index" or (x.get("k") == "Call" and callee(x) in PARTS) for x in lens)
         if f is not None:
             if is_len:
                 v = True if self.asg[f] else self.freevar(node)
@@ -1410,6 +1434,21 @@ def r17_eq_fields(facts):
                 c.unk(inst + "#both-operands", where, "`%s` is read from one operand only in this body; the rest goes through helper functions" % one_sided[0])
             else:
                 c.ok(inst + "#both-operands", where, "dimensions and values are read from both operands")
+        # the approximate comparisons hand their tolerances to the per-element comparison in the same order
+        if (b.get("impl_trait_def") or "").startswith("approx::"):
+            tol = [p_["pat"]["v"] for p_ in facts.params(b)[2:] if p_.get("pat") and p_["pat"].get("k") == "Binding"]
+            swapped = None
+            for nb in facts.nested(b):
+                for n_ in walk(facts.root(nb)):
+                    if n_.get("k") == "Call" and (callee(n_) or "").rsplit("::", 1)[-1] == b["name"] and len(n_["args"]) == 2 + len(tol) and n_ is not None:
+                        got_ = [var_of(peel(a)) for a in n_["args"][2:]]
+                        if all(g in tol for g in got_) and got_ != tol:
+                            swapped = (nb, n_, got_)
+            if swapped:
+                c.bad(inst + "#tolerances", loc(swapped[0], swapped[1]), "the per-element %s receives the tolerances in another order than this function does (%s for %s)"
+                      % (b["name"], [g.split("#")[0] for g in swapped[2]], [t_.split("#")[0] for t_ in tol]))
+            elif tol:
+                c.ok(inst + "#tolerances", where, "tolerances are handed on in order", nontrivial=False)
         rows, why = eq_truth_table(facts, b)
         negated = b["name"].endswith("ne")
         if rows is None:
